@@ -27,6 +27,11 @@ class Tail(object):
 NOTFOUND = object()
 
 
+class SplitIndex(Exception):
+    def __init__(self, local, term, signed):
+        self.local, self.term, self.signed = local, term, signed
+
+
 class NoMerge(Exception):
     pass
 
@@ -520,6 +525,10 @@ class Exec(object):
                 path.append(('downcast', pj[1]))
             elif k == 'index':
                 iv = fr.locals[pj[1]].val
+                t = z3.simplify(iv.t) if isinstance(iv, Int) else None
+                if t is not None and not z3.is_bv_value(t):
+                    # an index that depends on the path (e.g. `if c { 1 } else { 2 }` after state merging): split the state per feasible value
+                    raise SplitIndex(pj[1], t, iv.signed)
                 path.append(('index', self.concrete_int(iv)))
             elif k == 'constindex':
                 path.append(('index', pj[1]))
@@ -813,11 +822,32 @@ class Exec(object):
                 return 'STOP'
             first = False
             stmts, term, _ = fr.body.blocks[fr.block]
-            if fr.idx < len(stmts):
-                self.stmt(st, fr, stmts[fr.idx])
-                fr.idx += 1
-                continue
-            r = self.term(st, fr, term)
+            try:
+                if fr.idx < len(stmts):
+                    self.stmt(st, fr, stmts[fr.idx])
+                    fr.idx += 1
+                    continue
+                r = self.term(st, fr, term)
+            except SplitIndex as sp:
+                # enumerate the feasible values of the index term (all-SAT, small), fork, pin the local, and re-execute the same statement
+                vals = []
+                excl = []
+                while len(vals) <= 16:
+                    m = self.check(st, z3.And(*excl) if excl else z3.BoolVal(True))
+                    if m is None:
+                        break
+                    v = m.eval(sp.term, model_completion=True).as_long()
+                    vals.append(v)
+                    excl.append(sp.term != z3.BitVecVal(v, sp.term.size()))
+                if len(vals) > 16:
+                    raise Unsupported('symbolic index with more than 16 feasible values: %s' % sp.term)
+                outs = []
+                for v in vals:
+                    s2 = st.fork() if len(vals) > 1 else st
+                    s2.pc.append(sp.term == z3.BitVecVal(v, sp.term.size()))
+                    s2.frames[-1].locals[sp.local].val = Int(z3.BitVecVal(v, sp.term.size()), sp.signed)
+                    outs.append(s2)
+                return outs
             if r is not None:
                 return r
 
